@@ -284,6 +284,44 @@ pub fn run(rep: &mut Report, thorough: bool) {
             let (k, s, t) = &pairs[d[0] as usize];
             elicit(*k, &dmacs[d[1] as usize], s, t)
         });
+        // frames that fail ONE filter (foreign destination MAC, denied source, foreign destination
+        // address): no other byte of the frame may let them through - every byte position behind
+        // the Ethernet addresses x all 256 values (the source port's high byte, a payload byte that
+        // reads as an ICMPv6 type, ...), judged by the reference predicate
+        {
+            let mut bases: Vec<Vec<u8>> = Vec::new();
+            for v6 in [false, true] {
+                let (c, s) = if v6 { (cli6(), srv6()) } else { (cli4(), srv4()) };
+                let foreign = if v6 { Ip::parse("2001:db8::77") } else { Ip::V4([10, 0, 0, 77]) };
+                let denied = if v6 { deny6() } else { deny4() };
+                for k in kinds_for(v6) {
+                    if matches!(k, Kind::Arp | Kind::Ns) {
+                        continue;
+                    }
+                    bases.push(elicit(k, &[0x02, 0x99, 0x99, 0x99, 0x99, 0x99], &c, &s));
+                    if !cfg.deny_ips.is_empty() {
+                        bases.push(elicit(k, &cfg.mac, &denied, &s));
+                    }
+                    if !cfg.self_ips.is_empty() {
+                        bases.push(elicit(k, &cfg.mac, &c, &foreign));
+                    }
+                }
+            }
+            let mut plan: Vec<(usize, usize)> = Vec::new();
+            for (bi, b) in bases.iter().enumerate() {
+                let end = crate::deviate::app_offset(b).unwrap_or(b.len()).min(b.len());
+                for p in 12..end {
+                    plan.push((bi, p));
+                }
+            }
+            let n = plan.len() as u64;
+            sweep_frames(rep, cfg, &format!("filtered-frame-bytes-{}", tag), "eliciting frames that fail one filter (foreign destination MAC / denied source / foreign destination address) x every header byte position behind the Ethernet addresses x all 256 values", n * 256, |i| {
+                let (bi, p) = plan[(i / 256) as usize];
+                let mut f = bases[bi].clone();
+                f[p] = (i % 256) as u8;
+                f
+            });
+        }
         // ND-NS whose IP destination differs from the target (solicited-node multicast etc.)
         let mut tg: Vec<Ip> = vec![srv6(), srv6b(), Ip::parse("2001:db8::2")];
         for s in cfg.self_ips.iter().filter(|s| !s.is_v4()) {
